@@ -30,6 +30,7 @@ type Contract struct {
 	Pure     bool   // declared side-effect free
 	Requires []*Clause
 	Ensures  []*Clause
+	Defines  []*Clause // definitional ghost links: assumed at call sites, not checked in the body
 	LoopInv  map[int][]*Clause
 	LoopDec  map[int]*Clause
 	LoopMod  map[int][]string
@@ -78,6 +79,7 @@ type CallRule struct {
 	Callees  []string // patterns
 	Except   []string
 	Requires []*Clause
+	Ensures  []*Clause // scoped assumed postconditions of the callees (definitional ghost links)
 	Props    []string
 	File     string
 	Line     int
@@ -371,15 +373,19 @@ func (cs *ContractSet) parseFile(path, pkg string) error {
 			if rest != "nothing" {
 				cur.Assigns = append(cur.Assigns, splitList(rest)...)
 			}
-		case "requires", "ensures":
+		case "requires", "ensures", "defines":
 			c, _ := mkClause(rest)
 			lastClause = c
 			pending = append(pending, c)
 			if curRule != nil && kw == "requires" {
 				curRule.Requires = append(curRule.Requires, c)
+			} else if curRule != nil && (kw == "ensures" || kw == "defines") {
+				curRule.Ensures = append(curRule.Ensures, c)
 			} else if cur != nil {
 				if kw == "requires" {
 					cur.Requires = append(cur.Requires, c)
+				} else if kw == "defines" {
+					cur.Defines = append(cur.Defines, c)
 				} else {
 					cur.Ensures = append(cur.Ensures, c)
 				}
